@@ -21,6 +21,7 @@ mutual
 def tiNode (D : Nat) (above : List Tok) : Node → Bool
   | .mk k pre ms nf _ pc st pa an =>
     decide (arity (above ++ headToks k pre) ≤ D)
+    && (!ms.isEmpty || nf.isSome || !st.isEmpty || pa.isSome || an.isSome)   -- no dead leaves
     && (match k with
         | .static => true
         | .param => pre == [':']
